@@ -157,7 +157,22 @@ def r1_stage_order(ctx) -> None:
     else:
         r.violation("C14.R1", f.qual, "output = finalizer.apply(output)", "finalizers are not chained", f.loc)
     _finalize_table(ctx)
-    r.floor("C14.R1", 13)
+    # both per-rule converters can be called on a fresh backend: each builds the combined pipeline if there is none yet
+    from ..util import cfg_of as _cfg
+    for fn in ("convert_rule", "convert_correlation_rule"):
+        cf = prog.func(f"sigma.conversion.base.Backend.{fn}")
+        inits = [c for c in walk_no_nested(cf.node) if isinstance(c, ast.Call) and call_name(c) == "self.init_processing_pipeline"]
+        uses = [c for c in walk_no_nested(cf.node) if isinstance(c, ast.Call) and call_name(c) == "self.last_processing_pipeline.apply"]
+        if not uses:
+            raise AnalysisError(f"{cf.qual}: pipeline application not found")
+        cfg_ = _cfg(cf)
+        guard_ifs = [n for n in walk_no_nested(cf.node) if isinstance(n, ast.If) and "last_processing_pipeline" in unparse(n.test) and any(c in list(ast.walk(n)) for c in inits)]
+        ok_ = bool(guard_ifs) and all(cfg_.must_pass(u, cfg_.nodes_of(guard_ifs[0].test)) for use in uses for u in cfg_.nodes_of(prog.enclosing_stmt(use)))
+        if ok_:
+            r.ok("C14.R1", cf.qual, "combined pipeline is built on demand before it is applied", f"{cf.module.relpath}:{guard_ifs[0].lineno}")
+        else:
+            r.violation("C14.R1", cf.qual, "self.last_processing_pipeline.apply(rule) without lazy initialisation", "this per-rule converter applies the combined pipeline without building it when there is none: on a backend that has not converted anything yet it fails with AttributeError (its sibling builds it on demand)", cf.loc)
+    r.floor("C14.R1", 15)
 
 
 def _flatten_add(e: ast.AST) -> Optional[list[ast.AST]]:
